@@ -388,7 +388,10 @@ static bool runBurst(uint64_t seed, uint64_t idx)
   // let every waiter reach its park (they have nothing else to do); a straggler only makes the case easier
   for (int i = 0; i < 200 && inCall.load() < nWait; i++) vf::sleepMs(0.1);
   vf::sleepMs(2 + double(rng.below(3)));
-  int k = int(rng.range(2, uint64_t(std::min<size_t>(size_t(nWait), cap))));
+  bool closeBehindBurst = rng.chance(0.4);
+  // (close variant: fewer puts/takes than parked callers, so that some of them can only be woken by close())
+  int k = closeBehindBurst ? int(rng.range(1, uint64_t(std::min<size_t>(size_t(nWait - 1), cap))))
+                           : int(rng.range(2, uint64_t(std::min<size_t>(size_t(nWait), cap))));
   int api = int(rng.below(4));
   for (int i = 0; i < k; i++)
   {
@@ -403,6 +406,36 @@ static bool runBurst(uint64_t seed, uint64_t idx)
       bool ok = api == 0 ? q->dequeue(it) : api == 1 ? q->tryDequeue(it) : q->dequeue(it, std::chrono::milliseconds(50));
       if (!ok) { k = i; break; }
     }
+  }
+  // variant: close() comes right behind the burst, with no quiet period. The puts/takes of the burst wake ONE
+  // waiter each (and the queue is neither empty nor full while close() runs), so close() itself has to wake
+  // every other parked caller, on both sides, whatever the queue holds at that instant.
+  if (closeBehindBurst)
+  {
+    q->close();
+    uint64_t tc = vf::nowNs();
+    while (done.load() < nWait) { vf::sleepMs(0.5); if (vf::nowNs() - tc > 6000ull * 1000000ull) break; }
+    O.obs(consumersParked ? "bq_burst_then_close_consumers_parked" : "bq_burst_then_close_producers_parked");
+    O.caseSig(vf::fnv(&idx, sizeof idx) ^ (consumersParked ? 0x61 : 0x62) ^ (uint64_t(api) << 8) ^ (uint64_t(cap) << 16) ^ (uint64_t(k) << 24));
+    std::ostringstream d;
+    d << "{\"scenario\":" << idx << ",\"seed\":" << seed << ",\"cap\":" << cap << ",\"parked\":" << nWait << ",\"burst\":" << k << ",\"returned\":" << done.load()
+      << ",\"got_through\":" << moved.load() << ",\"size\":" << q->size() << ",\"api\":" << api << ",\"closed\":true}";
+    if (done.load() < nWait)
+    {
+      O.viol(std::string("C10:bq:stuck-after-close:burst-then-close:") + (consumersParked ? "dequeue" : "queue"),
+             "a caller parked before a burst of puts/takes that was followed at once by close() is still parked 6 s after close() returned", d.str());
+      for (auto &t : th) t.detach();
+      return false;
+    }
+    for (auto &t : th) t.join();
+    // every item of the burst was accepted before close(): parked consumers must have taken all of them (more
+    // consumers than items were parked); a producer may or may not have got in before the close, never more than k
+    if (consumersParked && moved.load() != uint64_t(k))
+      O.viol("C10:bq:take-failed-while-item-present:dequeue:after-close", "parked consumers came back empty-handed from a closed queue that still held items of the burst", d.str());
+    if (!consumersParked && moved.load() > uint64_t(k))
+      O.viol("C10:bq:over-capacity", "more parked producers got in than slots were freed", d.str());
+    delete q;
+    return true;
   }
   // quiet period: exactly k waiters must get through
   bool stuck = false;
